@@ -17,7 +17,7 @@ pub fn prop() -> Prop {
         id: "C03",
         run,
         max_len: 600,
-        quick: 120_000,
+        quick: 300_000,
         thorough: 3_000_000,
         rule: "choice sequence -> envelope whose every leaf is a unique marker string (>= 11 bytes) placed at subject / predicate / object / wrapped-interior / assertion-on-assertion positions, possibly already partly obscured, x target set x {removing, revealing} x {Elide, Encrypt, Compress}; oracle: the model computes the expected result from the visibility rule and the result must agree position-wise (case, digest, content); the serialised result is parsed by the harness parser and must not contain the marker bytes of any hidden leaf (Elide, Encrypt); unelide(x) is Ok iff digest(x)=digest(placeholder) for x in {original, obscured variants, near miss, unrelated}. non-trivial: >=1 hidden and >=1 visible element; distinct by FNV-64 of (encoding, targets, mode, action)",
         assumptions: &["marker strings are 11+ random-looking bytes: a chance occurrence inside ciphertext is negligible (< 2^-60 per case)", "no residue claim for the Compress action (compressed data may contain the content verbatim)"],
